@@ -134,6 +134,9 @@ impl WriteExt for Writer<&mut BytesMut> {
 
 impl<W: WriteExt + ?Sized> WriteExt for IoBufWriter<W> {
     fn reserve_with(&mut self, additional: usize) -> io::Result<&mut [MaybeUninit<u8>]> {
+        // the window is handed out by the inner writer, so the bytes still pending in the
+        // `BufWriter` must reach it first to keep the output in order.
+        io::Write::flush(self)?;
         self.get_mut().reserve_with(additional)
     }
 
